@@ -4,6 +4,7 @@ import (
 	"crypto"
 	stded "crypto/ed25519"
 	"errors"
+	"github.com/cloudflare/pat-go/ed25519/internal/edwards25519"
 )
 
 // C14 (glue equivalence): this package's key derivation, signing, verification and key generation
@@ -82,7 +83,21 @@ func VerifC14_glue_verify_small_order() {
 	}
 	pk := encs[vSplit(vInt("key", 0, 5), 0, 5)]
 	sig := make([]byte, 64)
-	copy(sig, encs[vSplit(vInt("r", 0, 5), 0, 5)])
+	if vBool("large_s") {
+		// S in [2^252, l), the top of the canonical range, and R = [S]B: a valid signature under
+		// every encoding of the identity; a verifier that is stricter than l on S rejects it
+		s := make([]byte, 32)
+		copy(s, vBytes("s_low", 16, 16))
+		vAssume(s[15] < 0x14)
+		s[31] = 0x10
+		sc, err := edwards25519.NewScalar().SetCanonicalBytes(s)
+		vAssume(err == nil)
+		copy(sig, (&edwards25519.Point{}).ScalarBaseMult(sc).Bytes())
+		copy(sig[32:], s)
+		pk = encs[vSplit(vInt("identity_encoding", 0, 3), 0, 3)]
+	} else {
+		copy(sig, encs[vSplit(vInt("r", 0, 5), 0, 5)])
+	}
 	base := vBytesC("msg", 0, 1)
 	for i := 0; i < 5; i++ {
 		msg := append(append([]byte{}, base...), byte(i))
